@@ -5,24 +5,27 @@
 (*   visit position i (0-based) iff  from <= i < to  and  i < length         *)
 (*   reversed reverses the visited segment; else-block iff nothing visited   *)
 (*   continue-position := from + number of positions in the segment          *)
-(* A program is up to three consecutive loops over the same collection with  *)
-(* the same loop variable (so they share one `offset: continue` key).        *)
+(* A program is up to three consecutive loops over the same collection; the  *)
+(* `offset: continue` position is kept per (loop variable, collection): a    *)
+(* later loop with the SAME variable resumes, one with ANOTHER variable has   *)
+(* its own position (0 until it has run).                                     *)
 EXTENDS Naturals, Integers, Sequences, FiniteSets, TLC, Json
 
 CONSTANTS MaxLen,        \* collection lengths 0..MaxLen
           Huge           \* a "very large" limit/offset value
 
+Vars == {"x", "y"}       \* loop variable names (the first loop of a program uses x)
 None == 0 - 99           \* absent argument
 Cont == 0 - 98           \* offset: continue
 
 Args(n) == {None} \cup ((0 - 2)..(n + 1)) \cup {Huge}
 FirstLoops(n) ==
-  { [kind |-> kd, limit |-> l, offset |-> o, rev |-> r, brk |-> b, cols |-> c] :
+  { [kind |-> kd, limit |-> l, offset |-> o, rev |-> r, brk |-> b, cols |-> c, var |-> var] :
       kd \in {"for", "tablerow"}, l \in Args(n), o \in Args(n) \cup {Cont}, r \in BOOLEAN,
-      b \in {0, 2}, c \in {None, 1, 2, n + 1} }
+      b \in {0, 2}, c \in {None, 1, 2, n + 1}, var \in {"x"} }
 NextLoops(n) ==
-  { [kind |-> "for", limit |-> l, offset |-> Cont, rev |-> r, brk |-> 0, cols |-> None] :
-      l \in {None, 0, 1, 2}, r \in BOOLEAN }
+  { [kind |-> "for", limit |-> l, offset |-> Cont, rev |-> r, brk |-> 0, cols |-> None, var |-> var] :
+      l \in {None, 0, 1, 2}, r \in BOOLEAN, var \in Vars }
 WellFormedLoop(lp) == /\ (lp.kind = "for" => lp.cols = None)
                       /\ (lp.kind = "tablerow" => lp.brk = 0 \/ lp.cols = None)
 Progs(n) == { <<a>> : a \in {x \in FirstLoops(n) : WellFormedLoop(x)} }
@@ -35,12 +38,12 @@ vars == <<n, prog, k, pos, negseen, out>>
 
 Init == /\ n \in 0..MaxLen
         /\ prog \in Progs(n)
-        /\ k = 1 /\ pos = 0 /\ negseen = FALSE /\ out = <<>>
+        /\ k = 1 /\ pos = [v \in Vars |-> 0] /\ negseen = FALSE /\ out = <<>>
 
 Min(a, b) == IF a < b THEN a ELSE b
 Max(a, b) == IF a > b THEN a ELSE b
 
-From(lp) == IF lp.offset = Cont THEN pos ELSE IF lp.offset = None THEN 0 ELSE lp.offset
+From(lp) == IF lp.offset = Cont THEN pos[lp.var] ELSE IF lp.offset = None THEN 0 ELSE lp.offset
 To(lp) == IF lp.limit = None THEN None ELSE From(lp) + lp.limit
 (* 0-based positions in the segment, in collection order *)
 Lo(lp) == Max(From(lp), 0)
@@ -70,7 +73,7 @@ RunLoop ==
   /\ LET lp == prog[k]
          seg == Segment(lp)
      IN /\ out' = Append(out, [visited |-> Printed(lp, seg), else |-> (Len(seg) = 0), seglen |-> Len(seg)])
-        /\ pos' = Lo(lp) + Len(seg)                 \* where `offset: continue` resumes
+        /\ pos' = [pos EXCEPT ![lp.var] = Lo(lp) + Len(seg)]      \* where `offset: continue` resumes for this variable
         /\ negseen' = (negseen \/ From(lp) < 0)
   /\ k' = k + 1
   /\ UNCHANGED <<n, prog>>
@@ -96,9 +99,13 @@ ZeroOrNegativeLimitVisitsNothing ==
                           /\ (prog[i].offset = None \/ prog[i].offset >= 0)) => out[i].seglen = 0
 (* consecutive continue loops never revisit an item and never skip one *)
 ContinuePartitions ==
-  (Done /\ Len(prog) >= 2 /\ ~negseen /\ prog[1].offset # Cont) =>
+  (Done /\ Len(prog) >= 2 /\ ~negseen /\ prog[1].offset # Cont /\ (\A i \in 1..Len(prog) : prog[i].var = "x")) =>
      \A i \in 2..Len(out) : \A j \in 1..Len(out[i].visited) :
          \A i2 \in 1..(i - 1) : \A j2 \in 1..Len(out[i2].visited) : out[i].visited[j].item # out[i2].visited[j2].item
+(* a continue loop over a variable that has not looped yet starts at the first item *)
+OwnKeyPerVariable ==
+  \A i \in 2..Len(out) : (prog[i].var = "y" /\ (\A i2 \in 1..(i - 1) : prog[i2].var = "x") /\ out[i].seglen > 0 /\ ~prog[i].rev)
+                              => out[i].visited[1].item = 1
 (* tablerow: every cell of a row but the last row's is filled; col runs 1..cols *)
 TableShape ==
   \A i \in 1..Len(out) : prog[i].kind = "tablerow" =>
